@@ -13,7 +13,7 @@ ASSUMPTIONS = ["oracle = the input rows themselves; geometry = exclusive prefix 
                "numpy's astype on one row is the reference for type conversion",
                "save/load is exercised as a round trip through a per-run temp directory only"]
 REQUIRED_FEATURES = ["empty_row_first", "empty_row_last", "consecutive_empty_rows", "all_rows_empty", "zero_rows",
-                     "mismatch_rejected", "numpy_roundtrip", "offsets_form", "long_repr"]
+                     "mismatch_rejected", "numpy_roundtrip", "offsets_form", "long_repr", "non_rectangular_refused"]
 BOUNDS = {"quick": "LV(4,3) x 9 dtypes x 2 value patterns x 4 constructors, all readers; size mismatch -1,+1,0,2x; "
                    "from/to_numpy_array for n,m<=4 x 9 dtypes; one array of 120 cells (long repr branch)",
           "thorough": "LV(5,3) u LV(3,5) x 9 dtypes x 3 patterns x 4 constructors; numpy round trip n,m<=5"}
@@ -146,6 +146,13 @@ def _check_rows(case, acc):
         o = observe(lambda: mk().to_numpy_array(), dt=True)
         cmp(acc, "to_numpy_array", A([list(r) for r in rows], dtype=dts if want_dt else o[1] if len(o) > 1 else None,
                                      shape=(n, lens[0])), o)
+    elif n and ctor == "flat_lens":
+        # not rectangular: there is no rectangle with "exactly those rows" -- any returned matrix misreports them
+        o = observe(lambda: mk().to_numpy_array())
+        acc.trans()
+        acc.feature("non_rectangular_refused")
+        if not is_refused(o):
+            acc.fail("to_numpy_array(non-rectangular)-accepted", "refused", o)
     # save / load
     if ctor == "flat_lens":
         p = os.path.join(tmpdir(), f"c01_{os.getpid()}.npz")
